@@ -1096,7 +1096,7 @@ def _quant(interp, args, is_forall):
     rng = z3.And(lo_t <= j, j < hi_t)
     st.no_fork += 1
     n_pc = len(st.pc)
-    st.solver.push()
+    st.push()
     try:
         with st.scope(rng):
             if st.check() == z3.unsat:
@@ -1105,7 +1105,7 @@ def _quant(interp, args, is_forall):
                 body = interp.truth(interp.call(pred, [SInt(j)], {}))
     finally:
         st.no_fork -= 1
-        st.solver.pop()
+        st.pop()
         learned = st.pc[n_pc:]
         del st.pc[n_pc:]
     # facts assumed about the element at the arbitrary index j hold for every index
